@@ -21,6 +21,10 @@ package main
 //	lcsall <A> <maxlen> <e> <egf>    every B over {a,c,g,t} of length <= maxlen (canonical order) against A
 //	                                                                                 -> "count checksum"
 //	d1all <A> <maxlen>               same for D1Or0                                  -> "count checksum"
+//	conc <g> <r> <n> n x [kind buf e A B]   the kernels under CONCURRENT use (c09_conc.go): the answers of the n calls
+//	                                 run alone; the oracle runs them from g goroutines, r rounds, sharing what the
+//	                                 workers of obiclean / obitag / obirefidx share -> "answer ; answer ; ..."
+//	race conc ...                    (thorough, first seed) the same through a `go build -race` build
 //
 // Oracles (independent naive references, on the real code): IUPAC compatibility = nucleotide sets intersect;
 // full-matrix lexicographic (score, -length) DP; Levenshtein distance; result independent of the scratch
